@@ -561,6 +561,13 @@ func (pa *path) doDescribe(req defs.PathDescribeReq) {
 func (pa *path) doRemovePublisher(req defs.PathRemovePublisherReq) {
 	if pa.source == req.Author {
 		pa.executeRemovePublisher()
+
+		// the on-demand publisher has left: reset the on-demand state
+		// in order to allow next requests to restart it,
+		// as doSourceStaticSetNotReady() does with on-demand static sources.
+		if pa.conf.HasOnDemandPublisher() && pa.onDemandPublisherState != pathOnDemandStateInitial {
+			pa.onDemandPublisherStop("publisher has left")
+		}
 	}
 	close(req.Res)
 }
